@@ -1,0 +1,54 @@
+//go:build verif
+
+package framer
+
+// Contracts for the deductive checker in /verif (comments only; compiled to nothing).
+
+//@ monitor (f *framer) bufLock
+//@   protects buffer
+
+//@ func (*framer).SendData
+//@   tags C02 C07
+//@   safety
+//@   requires len(data) <= 65535
+//@   modifies nothing
+//@   ensures LEN: len(result) == len(data) + 2
+//@   ensures HDR: result[0] == len(data) % 256 && result[1] == len(data) / 256
+//@   ensures PAYLOAD: forall i int :: 0 <= i && i < len(data) ==> result[i+2] == old(data[i])
+//@   ensures FRESH: fresh(result)
+
+//@ func (*framer).messageReady
+//@   tags C02 C07
+//@   safety
+//@   requires f != nil && held(f.bufLock) >= 1
+//@   pure
+//@   ensures SHORT: len(f.buffer) < 2 ==> result.0 == 0 && !result.1
+//@   ensures SIZE: len(f.buffer) >= 2 ==> result.0 == f.buffer[0] + 256*f.buffer[1]
+//@   ensures READY: len(f.buffer) >= 2 ==> (result.1 <==> len(f.buffer) >= result.0 + 2)
+
+//@ func (*framer).RecvData
+//@   tags C02 C07
+//@   safety
+//@   requires f != nil
+//@   modifies f.buffer, mem(f.buffer), comp:Mem_uint8
+//@   atrelease LEN: len(f.buffer) == len(acq(f.buffer)) + len(buf)
+//@   atrelease KEEP: forall i int :: 0 <= i && i < len(acq(f.buffer)) ==> f.buffer[i] == acq(f.buffer[i])
+//@   atrelease NEW: forall i int :: 0 <= i && i < len(buf) ==> f.buffer[len(acq(f.buffer)) + i] == acq(buf[i])
+//@   atrelease NOCLOBBER: forall j int :: 0 <= j && j < off(acq(f.buffer)) + len(acq(f.buffer)) ==> blk(acq(f.buffer), j) == acq(blk(f.buffer, j))
+
+//@ func (*framer).MessageReady
+//@   tags C02 C07
+//@   safety
+//@   requires f != nil
+//@   modifies nothing
+
+//@ func (*framer).GetMessage
+//@   tags C02 C07
+//@   safety
+//@   requires f != nil
+//@   modifies f.buffer
+//@   atrelease NOTREADY: (len(acq(f.buffer)) < 2 || len(acq(f.buffer)) < acq(f.buffer[0]) + 256*acq(f.buffer[1]) + 2) ==> result.1 != nil && f.buffer == acq(f.buffer)
+//@   atrelease READY: (len(acq(f.buffer)) >= 2 && len(acq(f.buffer)) >= acq(f.buffer[0]) + 256*acq(f.buffer[1]) + 2) ==> result.1 == nil && len(result.0) == acq(f.buffer[0]) + 256*acq(f.buffer[1])
+//@   atrelease DATA: result.1 == nil ==> forall i int :: 0 <= i && i < len(result.0) ==> result.0[i] == acq(f.buffer[i+2])
+//@   atrelease REST: result.1 == nil ==> len(f.buffer) == len(acq(f.buffer)) - len(result.0) - 2 && forall i int :: 0 <= i && i < len(f.buffer) ==> f.buffer[i] == acq(f.buffer[i + len(result.0) + 2])
+//@   atrelease ALIAS: result.1 == nil ==> ref(result.0) == ref(acq(f.buffer)) && off(result.0) == off(acq(f.buffer)) + 2 && ref(f.buffer) == ref(acq(f.buffer)) && off(f.buffer) == off(result.0) + len(result.0)
